@@ -205,14 +205,19 @@ def check_multi(case, stats):
             residues.append((tok, False, ci))
     n = len(residues)
     perms = [list(range(n)), list(range(n))[::-1], [(3 * i + 1) % n for i in range(n)] if n % 3 else list(range(n))[::2] + list(range(n))[1::2]]
-    for start in (1, 4):
+    # (start id, first resid used inside the multi-residue itp): an itp cut out of a larger molecule numbers its residues
+    # from 3; that is only meaningful when the fragment opens the molecule and the residue graph uses the same numbers
+    combos = [(1, 1), (4, 1)] + ([(3, 3)] if seq[0] == "M" and seq.count("M") == 1 else [])
+    for start, base in combos:
+        ff_text = M_ITP.replace(" 1 MA ", f" {base} MA ").replace(" 2 MB ", f" {base + 1} MB ") + \
+            F.render_block_itp("A", F.BLOCKS["A"]) + F.render_block_itp("B", F.BLOCKS["B"])
         for key_perm in perms:
             if sorted(key_perm) != list(range(n)):
                 continue
             rg = dict(n=n, edges=[[i, i + 1] for i in range(n - 1)], resids=[start + i for i in range(n)],
                       resnames=[r[0] for r in residues], node_attrs={str(i): {"from_itp": "M"} for i, r in enumerate(residues) if r[1]})
             evals += 1
-            case1 = dict(kind="multi1", seq=seq, start=start, key_perm=key_perm)
+            case1 = dict(kind="multi1", seq=seq, start=start, base=base, key_perm=key_perm)
             # expected atoms
             want, inter_want, last_cg = [], [], 0
             i = 0
@@ -254,7 +259,7 @@ def check_multi(case, stats):
             if gi != sorted(inter_want) and len(viols) < 20:
                 viols.append(dict(assertion="block-interaction-once-per-instance", tags=["multi-residue-block"],
                                   message=f"sequence {seq} start {start} keys {key_perm}: interactions {gi} expected {sorted(inter_want)}", case=case1, detail={}))
-            keys.append(json.dumps([seq, start, key_perm]))
+            keys.append(json.dumps([seq, start, base, key_perm]))
     return viols, evals, keys
 
 
